@@ -240,8 +240,10 @@ def _literals_in_order(url, literals):
     return -1
 
 
-def roundtrip(shape, path):
-    """None if the property holds for `path` on a fresh router holding shape.text only, else what failed"""
+def roundtrip(shape, path, rebuild=False):
+    """None if the property holds for `path` on a fresh router holding shape.text only, else what failed.
+    rebuild: the URL is built on a route object with a history - an incomplete build first (the last parameter missing:
+    url() raises), then the build that is judged, then the same build again (must give the same URL)"""
     rule = shape.text
     wild = shape.wildcards
     router = RadiRouter()
@@ -261,8 +263,20 @@ def roundtrip(shape, path):
     if len(values) != len(wild):
         return "rule %r matched %r with %d values for %d wildcards" % (rule, path, len(values), len(wild))
     args = [values[i] for i, w in enumerate(wild) if w.name is None]
+    if rebuild and wild:
+        try:
+            if wild[-1].name is None:
+                route.url(*args[:-1], **named)
+            else:
+                route.url(*args, **{k: v for k, v in named.items() if k != wild[-1].name})
+        except Exception:  # noqa - an incomplete build is refused; how is not the subject
+            cover("incomplete-refused")
     try:
         url = route.url(*args, **named)
+        if rebuild:
+            again = route.url(*args, **named)
+            if again != url:
+                return "rule %r, parameters %r / %r: url() gave %r and, asked again, %r" % (rule, args, named, url, again)
     except Exception as e:
         return "rule %r matched %r giving %r / %r, but url() of these parameters raised %s: %s" % (
             rule, path, args, named, type(e).__name__, e)
@@ -327,6 +341,16 @@ def make_holes(shape, sizes):
             assume(len(h) <= k)
             _restrict(shape, h)
         return roundtrip(shape, _path_of(shape, holes))
+    return q
+
+
+def make_rebuild(shape, sizes):
+    def q(h0: str, h1: str, h2: str):
+        holes = [h0, h1, h2][:len(sizes)]
+        for h, k in zip(holes, sizes):
+            assume(len(h) <= k)
+            _restrict(shape, h)
+        return roundtrip(shape, _path_of(shape, holes), rebuild=True)
     return q
 
 
@@ -400,6 +424,18 @@ def queries(tier):
                          "rule %s; every path (%s, slashes anywhere) of len <= %d" % (sh.text, alpha, n),
                          timeout=200 if not T else 900, expect_cover=expect, family="free",
                          config={"rule": sh.text, "literals": sh.literals, "path_len": n}))
+    picked = 0
+    for sh in shapes(tier):
+        nw = len(sh.wildcards)
+        if nw < 2 or len(sh.literals) < 2 or (not T and picked >= 5):
+            continue
+        picked += 1
+        sizes = list(sh.holes)
+        out.append(Q("rebuild/%s" % sh.tag, make_rebuild(sh, sizes),
+                     "rule %s: an incomplete url() call (last parameter missing), then the round trip, then the same build again "
+                     "on the same route object; symbolic text of len <= %s at the wildcards" % (sh.text, " / ".join(map(str, sizes))),
+                     timeout=200 if not T else 900, expect_cover=["matched", "incomplete-refused"], family="rebuild",
+                     config={"rule": sh.text, "hole_len": sizes}))
     for a, b, sizes, quick in SEQ_PAIRS:
         if not (quick or T):
             continue
